@@ -32,7 +32,7 @@ FRESH_CALLS = {'dict', 'list', 'set', 'defaultdict', 'OrderedDict', 'tuple',
 
 class WriteSite(object):
     __slots__ = ('func', 'cls', 'node', 'kind', 'base', 'root', 'rootkind',
-                 'text', 'attr', 'module')
+                 'text', 'attr', 'module', 'closure')
 
     def __init__(self, **kw):
         for k in self.__slots__:
@@ -148,6 +148,17 @@ class FunctionScope(object):
                 self._bind_target(n.target, n.value)
 
     # ------------------------------------------------------------------
+
+    def owner_of_name(self, name):
+        """the FunctionScope in which the name is bound (None: module)"""
+        if name in self.globals_decl:
+            return None
+        if (name in self.params or name in self.star_params or
+                name in self.bindings) and name not in self.nonlocals_decl:
+            return self
+        if self.parent is not None:
+            return self.parent.owner_of_name(name)
+        return None
 
     def kind_of_name(self, name, depth=0):
         """'self' | 'fresh' | 'param' | 'global' | 'scalar'"""
@@ -342,8 +353,25 @@ def own_nodes(fdef):
             todo.append(c)
 
 
+def escapes(fdef, parent):
+    """the nested function is used by its enclosing function other than
+    as the callee of a direct call (returned, stored, passed on): it can
+    be called after the activation that created it has returned"""
+    called = set()
+    for n in own_nodes(parent):
+        if isinstance(n, ast.Call) and isinstance(n.func, ast.Name):
+            called.add(id(n.func))
+    for n in own_nodes(parent):
+        if isinstance(n, ast.Name) and n.id == fdef.name and isinstance(
+                n.ctx, ast.Load) and id(n) not in called:
+            return True
+    return False
+
+
 def write_sites(module):
-    """all write sites of all functions of a module"""
+    """all write sites of all functions of a module; `closure` names the
+    enclosing function owning the written object when the writer is a
+    nested function that outlives that activation"""
     out = []
     for clsname, fdef, chain in iter_functions(module):
         scope = build_scope(clsname, fdef, chain)
@@ -397,9 +425,15 @@ def write_sites(module):
                 attr = None
                 if isinstance(node, ast.Attribute):
                     attr = node.attr
+                closure = None
+                if r is not None and rk in ('fresh', 'scalar') and chain:
+                    owner = scope.owner_of_name(r)
+                    if owner is not None and owner is not scope and \
+                            escapes(fdef, chain[-1][1]):
+                        closure = owner.fdef.name
                 out.append(WriteSite(
                     func=fdef.name, cls=owner_cls, node=n, kind=kind,
                     base=base, root=r, rootkind=rk,
                     text=ast.unparse(node)[:90], attr=attr,
-                    module=module.name))
+                    module=module.name, closure=closure))
     return out
